@@ -88,6 +88,11 @@ add("C11", "runtime monitor: element-by-element mapping oracle (TS 102 894-2 cod
     "asn1tools is the only UPER decoder available (a symmetric codec bug is invisible); confidence-class boundaries accept either neighbour; ellipse orientation and cluster radius unit are not judged.",
     "DESIGN.md 3/C11")
 
+add("C17", "runtime monitor: schedule and identity checker over time-stamped, decoded DENM requests of the real repetition threads stepped in lock-step virtual time; LDM query after real reception",
+    "Exploration: 1-6 overlapping DEN requests per scenario (emergency-vehicle application with interval 100..10000 ms and duration 0..60 s incl. exact multiples, collision-risk single shots) at event positions over the signed WGS-84 range; the real DENMTransmissionManagement threads run, their time.sleep being a virtual sleep released one sleeper at a time in wake-up order; every BTPDataRequest is time-stamped and decoded: ceil(T/i) messages at t0 + k*i, port 2002, GBC circle centred on the event position, constant action id and station identity per event, non-decreasing reference time equal to the transmission time, pairwise different action ids across events, no thread left running. Real encoded DENMs with varied management containers are given to the real reception manager and the LDM is queried for exactly one object located at the event position.",
+    "A 20 s wall-clock watchdog on the lock-step stepping ends a run as inconclusive; the application's fixed 1 s interval is varied through its public attribute.",
+    "DESIGN.md 3/C17")
+
 NOT_YET = "check not built yet (work in progress; runtime monitor planned in DESIGN.md section 3)"
 
 def main():
